@@ -2,6 +2,7 @@
 
 #include <yaclib/fault/detail/atomic_wait.hpp>
 #include <yaclib/fault/inject.hpp>
+#include <yaclib/fault/verif.hpp>
 
 #include <type_traits>
 
@@ -20,6 +21,12 @@ class AtomicBase : public AtomicWait<Impl, T> {
   using Base::is_always_lock_free;
   using Base::is_lock_free;
 
+#ifdef YACLIB_VERIF
+  static std::uint64_t VerifPeek(const void* self) noexcept {
+    return verif::ToWord(static_cast<const AtomicBase*>(self)->Impl::load(std::memory_order_relaxed));
+  }
+#endif
+
   T operator=(T desired) noexcept {
     YACLIB_INJECT_FAULT(auto r = Impl::operator=(desired));
     return r;
@@ -30,6 +37,7 @@ class AtomicBase : public AtomicWait<Impl, T> {
   }
 
   void store(T desired, std::memory_order order = std::memory_order_seq_cst) noexcept {
+    YACLIB_VERIF_ATOMIC(kStore, order, -1, desired, 0);
     YACLIB_INJECT_FAULT(Impl::store(desired, order));
   }
   void store(T desired, std::memory_order order = std::memory_order_seq_cst) volatile noexcept {
@@ -37,6 +45,7 @@ class AtomicBase : public AtomicWait<Impl, T> {
   }
 
   T load(std::memory_order order = std::memory_order_seq_cst) const noexcept {
+    YACLIB_VERIF_ATOMIC(kLoad, order, -1, 0, 0);
     YACLIB_INJECT_FAULT(auto r = Impl::load(order));
     return r;
   }
@@ -54,6 +63,7 @@ class AtomicBase : public AtomicWait<Impl, T> {
   }
 
   T exchange(T desired, std::memory_order order = std::memory_order_seq_cst) noexcept {
+    YACLIB_VERIF_ATOMIC(kXchg, order, -1, desired, 0);
     YACLIB_INJECT_FAULT(auto r = Impl::exchange(desired, order));
     return r;
   }
@@ -67,6 +77,7 @@ class AtomicBase : public AtomicWait<Impl, T> {
       expected = load(failure);
       return false;
     }
+    YACLIB_VERIF_ATOMIC(kCasWeak, success, failure, desired, expected);
     YACLIB_INJECT_FAULT(auto r = Impl::compare_exchange_weak(expected, desired, success, failure));
     return r;
   }
@@ -84,6 +95,7 @@ class AtomicBase : public AtomicWait<Impl, T> {
       expected = load(order);
       return false;
     }
+    YACLIB_VERIF_ATOMIC(kCasWeak, order, order, desired, expected);
     YACLIB_INJECT_FAULT(auto r = Impl::compare_exchange_weak(expected, desired, order));
     return r;
   }
@@ -97,6 +109,7 @@ class AtomicBase : public AtomicWait<Impl, T> {
     return r;
   }
   bool compare_exchange_strong(T& expected, T desired, std::memory_order success, std::memory_order failure) noexcept {
+    YACLIB_VERIF_ATOMIC(kCas, success, failure, desired, expected);
     YACLIB_INJECT_FAULT(auto r = Impl::compare_exchange_strong(expected, desired, success, failure));
     return r;
   }
@@ -106,6 +119,7 @@ class AtomicBase : public AtomicWait<Impl, T> {
     return r;
   }
   bool compare_exchange_strong(T& expected, T desired, std::memory_order order = std::memory_order_seq_cst) noexcept {
+    YACLIB_VERIF_ATOMIC(kCas, order, order, desired, expected);
     YACLIB_INJECT_FAULT(auto r = Impl::compare_exchange_strong(expected, desired, order));
     return r;
   }
@@ -132,6 +146,7 @@ class AtomicFloatingBase<Impl, T, true> : public AtomicBase<Impl, T> {
   using Base::Base;
 
   T fetch_add(T arg, std::memory_order order = std::memory_order_seq_cst) noexcept {
+    YACLIB_VERIF_ATOMIC(kFetchAdd, order, -1, arg, 0);
     YACLIB_INJECT_FAULT(auto r = Impl::fetch_add(arg, order));
     return r;
   }
@@ -141,6 +156,7 @@ class AtomicFloatingBase<Impl, T, true> : public AtomicBase<Impl, T> {
   }
 
   T fetch_sub(T arg, std::memory_order order = std::memory_order_seq_cst) noexcept {
+    YACLIB_VERIF_ATOMIC(kFetchSub, order, -1, arg, 0);
     YACLIB_INJECT_FAULT(auto r = Impl::fetch_sub(arg, order));
     return r;
   }
@@ -184,6 +200,7 @@ class AtomicIntegralBase<Impl, T, true> : public AtomicFloatingBase<Impl, T, tru
   using Base::Base;
 
   T fetch_and(T arg, std::memory_order order = std::memory_order_seq_cst) noexcept {
+    YACLIB_VERIF_ATOMIC(kFetchAnd, order, -1, arg, 0);
     YACLIB_INJECT_FAULT(auto r = Impl::fetch_and(arg, order));
     return r;
   }
@@ -193,6 +210,7 @@ class AtomicIntegralBase<Impl, T, true> : public AtomicFloatingBase<Impl, T, tru
   }
 
   T fetch_or(T arg, std::memory_order order = std::memory_order_seq_cst) noexcept {
+    YACLIB_VERIF_ATOMIC(kFetchOr, order, -1, arg, 0);
     YACLIB_INJECT_FAULT(auto r = Impl::fetch_or(arg, order));
     return r;
   }
@@ -202,6 +220,7 @@ class AtomicIntegralBase<Impl, T, true> : public AtomicFloatingBase<Impl, T, tru
   }
 
   T fetch_xor(T arg, std::memory_order order = std::memory_order_seq_cst) noexcept {
+    YACLIB_VERIF_ATOMIC(kFetchXor, order, -1, arg, 0);
     YACLIB_INJECT_FAULT(auto r = Impl::fetch_xor(arg, order));
     return r;
   }
